@@ -21,6 +21,13 @@ theorem decrypt_encrypt (key blk : Block) : Model.Aes.decrypt key (Model.Aes.enc
 theorem encrypt_decrypt (key blk : Block) : Model.Aes.encrypt key (Model.Aes.decrypt key blk) = blk :=
   Proofs.Aes.aes_encrypt_decrypt key blk
 
+/-- under every key the block function is a permutation of the 2^128 blocks: injective … -/
+theorem encrypt_injective (key b1 b2 : Block) (h : Model.Aes.encrypt key b1 = Model.Aes.encrypt key b2) : b1 = b2 := by
+  rw [← decrypt_encrypt key b1, ← decrypt_encrypt key b2, h]
+/-- … and onto (every block is the encryption of exactly one block, namely its decryption) -/
+theorem encrypt_surjective (key c : Block) : ∃ b, Model.Aes.encrypt key b = c ∧ ∀ b', Model.Aes.encrypt key b' = c → b' = b :=
+  ⟨Model.Aes.decrypt key c, encrypt_decrypt key c, fun b' h => by rw [← h, decrypt_encrypt]⟩
+
 /-- the same for the variants with a precomputed key schedule (what the stream objects hold) -/
 theorem encryptK_is_fips197 (key blk : Block) : Model.Aes.encryptK (Model.Aes.allKeys key) blk = Spec.AES.cipher key blk := by
   rw [Proofs.Aes.aes_encryptK, Proofs.Aes.aes_encrypt_eq_spec]
